@@ -20,23 +20,6 @@ func (c *cachedRoutes) VerifKeys() []string {
 	return keys
 }
 
-// VerifIndexKeys returns the keys of the cache hash index (unordered).
-func (c *cachedRoutes) VerifIndexKeys() []string {
-	c.lock.RLock()
-	defer c.lock.RUnlock()
-
-	keys := make([]string, 0, len(c.hashMap))
-	for k := range c.hashMap {
-		keys = append(keys, k)
-	}
-	return keys
-}
-
-// VerifCache returns the cache instance of the router (may be nil).
-func (r *Router) VerifCache() *cachedRoutes {
-	return r.cachedRoutes
-}
-
 // VerifCacheKeys returns the router's cache keys in recency order; ok is false
 // when the router has no cache container.
 func (r *Router) VerifCacheKeys() (keys []string, ok bool) {
@@ -77,43 +60,6 @@ func VerifGetConsts() VerifConsts {
 		RouterFields:   fields(Router{}),
 		RouteFields:    fields(Route{}),
 	}
-}
-
-// VerifIndex returns the handler cursor of the context.
-func (c *Context) VerifIndex() int { return int(c.index) }
-
-// VerifTier reports in which table a registered route lives:
-// "static", "regular:<first>", "irregular" (one entry per method), for the
-// route registered with the given pointer.
-func (r *Router) VerifTier(rt *Route) (tiers []string) {
-	for k, v := range r.stableRoutes {
-		if v == rt {
-			tiers = append(tiers, "static:"+k)
-		}
-	}
-	for k, rs := range r.regularRoutes {
-		for _, v := range rs {
-			if v == rt {
-				tiers = append(tiers, "regular:"+k)
-			}
-		}
-	}
-	for k, rs := range r.irregularRoutes {
-		for _, v := range rs {
-			if v == rt {
-				tiers = append(tiers, "irregular:"+k)
-			}
-		}
-	}
-	return
-}
-
-// VerifRouteInfo returns the compiled form of a route.
-func (rt *Route) VerifRouteInfo() (start string, regex string, matches []string) {
-	if rt.regex != nil {
-		regex = rt.regex.String()
-	}
-	return rt.start, regex, append([]string{}, rt.matches...)
 }
 
 // VerifGroupState returns the registration-scope state of the router.
